@@ -121,6 +121,16 @@ func Build(c Case) (res *Built) {
 		res.Err = err.Error()
 		return
 	}
+	finishBuilt(res, cc, in, zs, c.Opt == 1)
+	return
+}
+
+// finishBuilt wires the result buses to circuit outputs through ID gates
+// exactly as the SSA `ret` instruction does, dumps cc.Gates canonically
+// (inputs 0..nin-1, every other wire numbered at its first occurrence in A,
+// B, O order) and compiles.
+func finishBuilt(res *Built, cc *circuits.Compiler, in []*circuits.Wire, zs [][]*circuits.Wire, opt bool) {
+	nin := len(in)
 	// ret
 	for _, wg := range zs {
 		for _, zw := range wg {
@@ -133,8 +143,6 @@ func Build(c Case) (res *Built) {
 		o.SetOutput(true)
 	}
 
-	// canonical dump of cc.Gates: inputs 0..nin-1, every other wire numbered
-	// at its first occurrence (A, B, O order).
 	num := make(map[*circuits.Wire]int, len(cc.Gates)+nin)
 	for i, iw := range in {
 		num[iw] = i
@@ -163,13 +171,12 @@ func Build(c Case) (res *Built) {
 	}
 	res.RawWires = len(num)
 
-	if c.Opt == 1 {
+	if opt {
 		cc.ConstPropagate()
 		cc.ShortCircuitXORZero()
 		cc.Prune()
 	}
 	res.Circ = cc.Compile()
-	return
 }
 
 // RawLine renders the canonical raw gate list: `<nIn> <gates> <outs>`.
